@@ -143,9 +143,8 @@ def strictAscBc : List BcSnap → Bool
   | [_] => true
   | a :: b :: t => a.snap.lt b.snap && strictAscBc (b :: t)
 
-def denote (lay : Layout) (lines : List Bytes) : Option Denotation := do
-  let doc ← (parseDoc lines).toOption
-  let hdr ← (readHeader doc.header).toOption
+/-- everything but the header record: tempo list, positioned hits and holds -/
+def denoteBody (lay : Layout) (doc : Doc) (hdr : Header) : Option (List BcSnap × List SHit × List SHold) := do
   if hdr.bpm0 ≤ 0 then none
   if doc.notes.any (fun d => d.2.1 = lay.timeSig) then none
   -- every data line is well-formed: a measure number and an even number of characters
@@ -166,11 +165,21 @@ def denote (lay : Layout) (lines : List Bytes) : Option Denotation := do
     let os := sortObjs os
     if !strictAsc os then none
     pairLane lnobj sampleOf lane.2 none os)
-  let shits := perLane.flatMap (·.1)
-  let sholds := perLane.flatMap (·.2)
-  let T := timeAt 0 cs
-  some { header := hdr, tempo := cs, shits := shits, sholds := sholds,
-         hits := shits.map (fun h => ⟨h.col, h.sample, T h.snap⟩),
-         holds := sholds.map (fun h => ⟨h.col, h.sample, T h.head, T h.tail - T h.head⟩) }
+  some (cs, perLane.flatMap (·.1), perLane.flatMap (·.2))
+
+def denote (lay : Layout) (lines : List Bytes) : Option Denotation :=
+  match parseDoc lines with
+  | .error _ => none
+  | .ok doc =>
+    match readHeader doc.header with
+    | .error _ => none
+    | .ok hdr =>
+      match denoteBody lay doc hdr with
+      | none => none
+      | some (cs, shits, sholds) =>
+        let T := timeAt 0 cs
+        some { header := hdr, tempo := cs, shits := shits, sholds := sholds,
+               hits := shits.map (fun h => ⟨h.col, h.sample, T h.snap⟩),
+               holds := sholds.map (fun h => ⟨h.col, h.sample, T h.head, T h.tail - T h.head⟩) }
 
 end Reamber.BMS
